@@ -30,6 +30,10 @@ type NetType byte
 type Forward struct {
 	listen  net.Addr
 	connect net.Addr
+
+	// Authorize, when set, is asked before a forwarding of the given type
+	// (PfLocal or PfRemote) is set up for a peer; an error refuses the request.
+	Authorize func(fwdType int) error
 }
 
 const (
@@ -139,6 +143,15 @@ func StartPFServer(ch *tubes.Reliable, forward *Forward, muxer *tubes.Muxer) {
 		ch.Write([]byte{failure})
 		ch.Close()
 		return
+	}
+
+	if forward.Authorize != nil {
+		if err := forward.Authorize(int(fwdType)); err != nil {
+			logrus.Errorf("PF: forwarding refused: %v", err)
+			ch.Write([]byte{failure})
+			ch.Close()
+			return
+		}
 	}
 
 	switch fwdType {
